@@ -12,6 +12,7 @@ func Make[T any](n int, site string) *Chan[T] {
 
 // newCore is not generic on purpose: generic code is compiled (and, in the race variant, instrumented)
 // in the importing package, and the channel counter is scheduler state.
+//
 //go:noinline
 func newCore(n int, site string) *core {
 	k := &core{cap: n, name: site}
